@@ -327,3 +327,15 @@ func calleeMatches(cc *ssa.CallCommon, target, pkg string) bool {
 	}
 	return short+"."+rn == target || cp+"."+rn == target
 }
+
+func (e *Engine) allFunctionsNamed(name string) []*ssa.Function {
+	var out []*ssa.Function
+	for path := range e.spkgs {
+		for _, fn := range e.pkgFunctions(path) {
+			if relName(fn) == name && fn.Parent() == nil {
+				out = append(out, fn)
+			}
+		}
+	}
+	return out
+}
